@@ -186,6 +186,10 @@ func c07() {
 		}
 		for _, inj := range injections(r, base, t, ts) {
 			p := inj.spec.Policy()
+			if i%3 == 1 {
+				vlib.ShareBackingArray(p) // the groups' lists are sub-slices of one array, as when carved out of one list
+				run.Count("injected_defects_in_policies_whose_groups_share_one_array", 1)
+			}
 			c := vlib.Compile(p, t)
 			run.Count("injected_defects", 1)
 			mu.Lock()
@@ -229,6 +233,9 @@ func c07() {
 			p = vlib.GenMixed(r, t, vlib.DefaultMixed())
 		}
 		spec := vlib.SpecOf(p, t.Name)
+		if i%4 == 1 {
+			vlib.ShareBackingArray(p)
+		}
 		c := vlib.Compile(p, t)
 		run.Count("valid_policies", 1)
 		replay := map[string]any{"check": "C07", "policy": spec}
